@@ -5,6 +5,8 @@ from concurrent.futures import ThreadPoolExecutor
 VERIF = os.path.dirname(os.path.dirname(os.path.abspath(__file__)))
 REPO = os.environ.get('VERIF_REPO', '/repo')
 JOBS = int(os.environ.get('VERIF_JOBS', '16'))
+# VERIF_TAG: scratch runs (seeded-defect matrix, mutant self-tests) use their own build directory and do not touch evidence/ or replay/
+TAG = os.environ.get('VERIF_TAG', '')
 
 COMMON = ['-std=c++17', '-ffp-contract=off', '-fno-fast-math', '-pthread', '-DGLM_ENABLE_EXPERIMENTAL',
           '-Wall', '-Wextra', '-Wno-unused-parameter', '-Wno-unused-function', '-Wno-unused-variable',
@@ -134,7 +136,7 @@ def safe(s):
 def do_check(prop, tier, seed, specmod):
     t0 = time.time()
     spec = specmod.spec(prop, tier, seed)
-    bdir = os.path.join(VERIF, 'build', prop)
+    bdir = os.path.join(VERIF, 'build', prop + ('.' + TAG if TAG else ''))
     shutil.rmtree(bdir, ignore_errors=True); os.makedirs(bdir)
     units = spec['units']
     harness_fail = []
@@ -230,7 +232,7 @@ def finish(prop, tier, seed, spec, units, viols, ran, harness_fail, t0):
         for w in v['witnesses']:
             if len(a['witnesses']) < 3:
                 w = dict(w); w['unit'] = un; a['witnesses'].append(w)
-    rdir = os.path.join(VERIF, 'replay', prop)
+    rdir = os.path.join(VERIF, 'replay', prop) if not TAG else os.path.join(VERIF, 'build', prop + '.' + TAG, 'replay')
     new, kn = [], []
     unitmap = {u.name: u for u in units}
     for k, a in sorted(agg.items()):
@@ -302,7 +304,7 @@ def finish(prop, tier, seed, spec, units, viols, ran, harness_fail, t0):
         harness_fail.append('monitors observed no events')
         cov['evaluations'] = max(evals, 1); cov['distinct_nontrivial'] = max(cov['distinct_nontrivial'], 2)
         cov['harness_failures'] = harness_fail; cov['verdict'] = 'inconclusive'
-    json.dump(ev, open(os.path.join(VERIF, 'evidence', prop + '.json'), 'w'), indent=1)
+    json.dump(ev, open(os.path.join(VERIF, 'evidence', prop + '.json') if not TAG else os.path.join(VERIF, 'build', prop + '.' + TAG, 'evidence.json'), 'w'), indent=1)
     log('%s tier=%s seed=%d: %d evaluations, %d operations, %d known findings, %d new violations, %.1fs' % (prop, tier, seed, evals, len(per_op), len(kn), len(new), time.time() - t0))
     if new: return 1
     if harness_fail:
